@@ -21,10 +21,11 @@
    every stack the checks build), the target is declared.  [coherent w c a]: what the world calls declared is
    found in the database.  [wf_dirs a]: installation directories of different declarations are pairwise
    non-nested; [dirs_present]: the directories of the asked products exist. *)
-From Eupsv Require Import Base.Base Base.BaseLemmas Model.Graph Model.Db Model.Remove
+From Eupsv Require Import Base.Base Base.BaseLemmas Model.Graph Model.Db Model.Remove Model.RemoveExt
      Proofs.GraphLib Proofs.GraphWalk Proofs.GraphListing Proofs.GraphOrder
      Proofs.DbLib Proofs.Db Proofs.DbInv
-     Proofs.RemoveLib Proofs.RemoveDestroy Proofs.RemoveCollect Proofs.RemoveMain Proofs.RemoveCheck.
+     Proofs.RemoveLib Proofs.RemoveDestroy Proofs.RemoveCollect Proofs.RemoveMain Proofs.RemoveCheck
+     Proofs.RemoveExt.
 Open Scope string_scope.
 
 (* ------------------------------------------------------------------ exactly what was asked *)
@@ -32,7 +33,9 @@ Open Scope string_scope.
 (* When the command ends normally: the declarations that are gone are exactly the doomed ones (the target
    and, with recursive, its whole dependency closure - on every graph: cycles, shared sub-trees, several
    versions of one product, unresolved dependencies); a tag survives exactly when the version it names
-   survives; the paths that are gone are exactly those inside the (real) directories of the asked products. *)
+   survives; with pairwise non-nested installation directories the paths that are gone are exactly those inside the
+   (real) directories of the asked products (without that hypothesis a directory in which a declaration that
+   stays is installed is left alone: frame_directories_multi). *)
 Theorem removes_exactly fuel w c st n v recursive check st' :
   wf_world w -> default_undeclared w c -> declared w n v = true ->
   remove_fixed fuel w c st n v recursive check = (Ok tt, st') ->
@@ -43,11 +46,15 @@ Theorem removes_exactly fuel w c st n v recursive check st' :
      a_tag (rdb st') s n' t f' = None) /\
   (forall s n' t f', (forall v', a_tag (rdb st) s n' t f' = Some v' -> ~ doomed w c (rdb st) n v recursive s n' v' f') ->
      a_tag (rdb st') s n' t f' = a_tag (rdb st) s n' t f') /\
-  (forall x, In x (rfs st') <->
+  (wf_dirs (rdb st) ->
+   forall x, In x (rfs st') <->
      In x (rfs st) /\
      ~ exists q dir, asked w n v recursive q /\ product_dir c (rdb st) q = Some dir /\ placeholder dir = false /\
                      under dir x = true).
-Proof. exact (remove_exact fuel w c st n v recursive check st'). Qed.
+Proof.
+  intros Hwf Hdef D H. destruct (remove_exact true fuel w c st n v recursive check st' Hwf Hdef D H) as [A [B [C [E F]]]].
+  repeat split; auto; apply F; auto.
+Qed.
 Print Assumptions removes_exactly.
 
 (* the asked set is the target plus what C13's listing (getDependentProducts) holds, restricted to declared
@@ -75,14 +82,14 @@ Theorem refuses_when_needed fuel w c st n v recursive idx d u :
   asked w n v recursive d ->
   In u (map fst w) -> ~ asked w n v recursive (pnode u) -> reach_plus w (pnode u) d ->
   remove_fixed fuel w c st n v recursive true = (Err Refused, st).
-Proof. exact (remove_refuses_when_needed fuel w c st n v recursive idx d u). Qed.
+Proof. exact (remove_refuses_when_needed true fuel w c st n v recursive idx d u). Qed.
 Print Assumptions refuses_when_needed.
 
 (* a refusal, whenever it happens, has changed nothing *)
 Theorem refusal_changes_nothing fuel w c st n v recursive check st' :
   wf_world w -> default_undeclared w c -> declared w n v = true ->
   remove_fixed fuel w c st n v recursive check = (Err Refused, st') -> st' = st.
-Proof. exact (refusal_keeps_state fuel w c st n v recursive check st'). Qed.
+Proof. exact (refusal_keeps_state true fuel w c st n v recursive check st'). Qed.
 Print Assumptions refusal_changes_nothing.
 
 (* the command refuses only when the in-use check is on and force is off.  (The converse of
@@ -93,7 +100,7 @@ Theorem refusal_only_with_check fuel w c st n v recursive check st' :
   wf_world w -> default_undeclared w c -> declared w n v = true -> length w + 2 <= fuel ->
   (check = true -> exists idx, uses_index fuel w = Ok idx) ->
   remove_fixed fuel w c st n v recursive check = (Err Refused, st') -> check = true /\ rc_force c = false.
-Proof. exact (RemoveMain.refusal_only_with_check fuel w c st n v recursive check st'). Qed.
+Proof. exact (RemoveMain.refusal_only_with_check true fuel w c st n v recursive check st'). Qed.
 Print Assumptions refusal_only_with_check.
 
 (* every error is raised before the first write: no exception leaves a partly removed stack behind (the
@@ -102,7 +109,7 @@ Theorem error_changes_nothing fuel w c st n v recursive check e st' :
   wf_world w -> default_undeclared w c -> declared w n v = true ->
   coherent w c (rdb st) -> wf_dirs (rdb st) -> dirs_present w c st n v recursive ->
   remove_fixed fuel w c st n v recursive check = (Err e, st') -> st' = st.
-Proof. exact (error_keeps_state fuel w c st n v recursive check e st'). Qed.
+Proof. exact (error_keeps_state true fuel w c st n v recursive check e st'). Qed.
 Print Assumptions error_changes_nothing.
 
 (* without the in-use check, or with force, the command ends normally on every graph: the fuel |w| + 2 is
@@ -113,7 +120,7 @@ Theorem remove_completes fuel w c st n v recursive check :
   check = false \/ rc_force c = true ->
   coherent w c (rdb st) -> wf_dirs (rdb st) -> dirs_present w c st n v recursive ->
   exists st', remove_fixed fuel w c st n v recursive check = (Ok tt, st').
-Proof. exact (RemoveMain.remove_completes fuel w c st n v recursive check). Qed.
+Proof. exact (RemoveMain.remove_completes true fuel w c st n v recursive check). Qed.
 Print Assumptions remove_completes.
 
 (* ------------------------------------------------------------------ frame *)
@@ -133,7 +140,7 @@ Theorem frame fuel w c st n v recursive check res st' :
      (forall q dir, asked w n v recursive q -> product_dir c (rdb st) q = Some dir -> placeholder dir = false ->
                     under dir x = false) ->
      In x (rfs st')).
-Proof. exact (remove_frame fuel w c st n v recursive check res st'). Qed.
+Proof. exact (remove_frame true fuel w c st n v recursive check res st'). Qed.
 Print Assumptions frame.
 
 (* with pairwise non-nested installation directories: the whole directory of every surviving declaration
@@ -144,7 +151,7 @@ Theorem frame_directories fuel w c st n v recursive check res st' s0 m u f0 rs :
   a_decl (rdb st) s0 m u f0 = Some rs -> placeholder (fst rs) = false ->
   ~ doomed w c (rdb st) n v recursive s0 m u f0 ->
   forall x, under (fst rs) x = true -> (In x (rfs st') <-> In x (rfs st)).
-Proof. exact (remove_frame_dirs fuel w c st n v recursive check res st' s0 m u f0 rs). Qed.
+Proof. exact (remove_frame_dirs true fuel w c st n v recursive check res st' s0 m u f0 rs). Qed.
 Print Assumptions frame_directories.
 
 (* ------------------------------------------------------------------ witnesses *)
@@ -268,10 +275,10 @@ Definition st_samename : rstate :=
       (paths "a" "1" ++ paths "a" "2" ++ paths "c" "1").
 
 Example recursion_refuted_pinned :
-  remove true false 50 w_cycle (conf false) st_cycle (lit "a") (lit "1") true false = (Err OutOfFuel, st_cycle)
+  remove true false false 50 w_cycle (conf false) st_cycle (lit "a") (lit "1") true false = (Err OutOfFuel, st_cycle)
   /\ (let '(r, s) := remove_fixed 5 w_cycle (conf false) st_cycle (lit "a") (lit "1") true false in (r, adecls (rdb s)))
      = (Ok tt, [])
-  /\ (let '(r, s) := remove true false 5 w_samename (conf false) st_samename (lit "a") (lit "1") true false in
+  /\ (let '(r, s) := remove true false false 5 w_samename (conf false) st_samename (lit "a") (lit "1") true false in
       (r, adecls (rdb s))) = (Ok tt, [dk "c" "1"])
   /\ (let '(r, s) := remove_fixed 5 w_samename (conf false) st_samename (lit "a") (lit "1") true false in
       (r, adecls (rdb s), atags (rdb s))) = (Ok tt, [], []).
@@ -294,3 +301,327 @@ Proof.
   - right. split; [reflexivity|]. apply dp_step with (q := nd "b" "1"); [vm_compute; auto|].
     apply dp_step with (q := nd "c" "1"); [vm_compute; auto|]. apply dp_refl.
 Qed.
+
+
+(* ================================================================== the whole command (extension)
+
+   [remove_x xall keep fuel ww wu c st k answers] (Model/RemoveExt.v) is Eups.remove as the command line calls it:
+   [k] holds product, version, recursive, checkRecursive and interactive; [answers] are the lines standard
+   input holds; the state is keyed by stack and flavor and holds the paths of every stack.  Two resolved
+   worlds: [ww] is what _remove walks (running flavor, first stack on the path, that declaration's table), [wu]
+   what Eups.uses reads (every declaration in every stack, running flavor and fall-back flavors).
+   [xall = true] is the code with the fix C14-remove-other-declarations, [false] the pinned tree.
+   [eups_remove] puts the option handling of RemoveCmd.execute in front.
+   [gone c a sel s n v f]: (s, n, v, f) is the declaration removed for a product of the list [sel]: running
+   flavor, first stack on the path that declares it.  [select i order dflt answers]: the products of the
+   removal list the answers say yes to, and how the questioning ends. *)
+
+(* the front end: what the options become; fewer than two arguments touch nothing *)
+Theorem front_end_exact xall keep fuel ww wu flavor dp st o p v rest answers :
+  eups_remove xall keep fuel ww wu flavor dp st o (p :: v :: rest) answers =
+  Some (remove_x xall keep fuel ww wu (mkRC flavor dp (ro_force o)) st
+          (mkCall p v (ro_recursive o) (negb (ro_nocheck o))
+                  (match ro_interactive o with Some b => b | None => false end)) answers).
+Proof. exact (RemoveExt.front_end_exact xall keep fuel ww wu flavor dp st o p v rest answers). Qed.
+Print Assumptions front_end_exact.
+
+Theorem front_end_usage xall keep fuel ww wu flavor dp st o args answers :
+  length args < 2 -> eups_remove xall keep fuel ww wu flavor dp st o args answers = None.
+Proof. exact (RemoveExt.front_end_usage xall keep fuel ww wu flavor dp st o args answers). Qed.
+Print Assumptions front_end_usage.
+
+(* one declaration of the product named, no questions, one world: the command of the theorems above *)
+Theorem whole_command_conservative xall keep fuel w c st n v recursive chk answers :
+  (xall = true -> chk = true -> length (decl_places c (rdb st) n v) <= 1) ->
+  remove_x xall keep fuel w w c st (mkCall n v recursive chk false) answers = remove true true keep fuel w c st n v recursive chk.
+Proof. exact (remove_x_is_remove_fixed xall keep fuel w c st n v recursive chk answers). Qed.
+Print Assumptions whole_command_conservative.
+
+(* removes_exactly over the extended state: declarations of every stack and flavor, tags of every stack, paths
+   of every stack and outside; without questions *)
+Theorem removes_exactly_multi xall keep fuel ww wu c st k answers st' :
+  wf_world ww -> default_undeclared ww c -> declared ww (k_name k) (k_version k) = true ->
+  k_interactive k = false ->
+  remove_x xall keep fuel ww wu c st k answers = (Ok tt, st') ->
+  let n := k_name k in let v := k_version k in let recursive := k_recursive k in
+  (forall s n' v' f', doomed ww c (rdb st) n v recursive s n' v' f' -> a_decl (rdb st') s n' v' f' = None) /\
+  (forall s n' v' f', ~ doomed ww c (rdb st) n v recursive s n' v' f' ->
+     a_decl (rdb st') s n' v' f' = a_decl (rdb st) s n' v' f') /\
+  (forall s n' t f' v', a_tag (rdb st) s n' t f' = Some v' -> doomed ww c (rdb st) n v recursive s n' v' f' ->
+     a_tag (rdb st') s n' t f' = None) /\
+  (forall s n' t f', (forall v', a_tag (rdb st) s n' t f' = Some v' -> ~ doomed ww c (rdb st) n v recursive s n' v' f') ->
+     a_tag (rdb st') s n' t f' = a_tag (rdb st) s n' t f') /\
+  (keep = false \/ wf_dirs (rdb st) ->
+   forall x, In x (rfs st') <->
+     In x (rfs st) /\
+     ~ exists q dir, asked ww n v recursive q /\ product_dir c (rdb st) q = Some dir /\ placeholder dir = false /\
+                     under dir x = true).
+Proof. exact (remove_x_exact_plain xall keep fuel ww wu c st k answers st'). Qed.
+Print Assumptions removes_exactly_multi.
+
+(* with questions: the set removed is a function of the answers.  There is a duplicate-free list of exactly the
+   asked products (the order in which they are asked about) such that what has gone - declarations, their tags,
+   their directories - is exactly what the answers select from it, whether the command ran to the end or
+   was ended with q *)
+Theorem removes_exactly_interactive xall keep fuel ww wu c st k answers st' :
+  wf_world ww -> default_undeclared ww c -> declared ww (k_name k) (k_version k) = true ->
+  remove_x xall keep fuel ww wu c st k answers = (Ok tt, st') ->
+  exists order, NoDup order /\
+    (forall q, In q order <-> asked ww (k_name k) (k_version k) (k_recursive k) q) /\
+    let sel := fst (select (k_interactive k) order ans_y answers) in
+    (forall s n' v' f', gone c (rdb st) sel s n' v' f' -> a_decl (rdb st') s n' v' f' = None) /\
+    (forall s n' v' f', ~ gone c (rdb st) sel s n' v' f' -> a_decl (rdb st') s n' v' f' = a_decl (rdb st) s n' v' f') /\
+    (forall s n' t f' v', a_tag (rdb st) s n' t f' = Some v' -> gone c (rdb st) sel s n' v' f' ->
+       a_tag (rdb st') s n' t f' = None) /\
+    (forall s n' t f', (forall v', a_tag (rdb st) s n' t f' = Some v' -> ~ gone c (rdb st) sel s n' v' f') ->
+       a_tag (rdb st') s n' t f' = a_tag (rdb st) s n' t f') /\
+    (keep = false \/ wf_dirs (rdb st) ->
+     forall x, In x (rfs st') <->
+       In x (rfs st) /\
+       ~ exists q dir, In q sel /\ product_dir c (rdb st) q = Some dir /\ placeholder dir = false /\ under dir x = true).
+Proof. exact (remove_x_exact xall keep fuel ww wu c st k answers st'). Qed.
+Print Assumptions removes_exactly_interactive.
+
+(* what the answers can select: only products of the list; nothing is asked after the exclamation mark, which
+   selects everything that is left; without -i everything *)
+Theorem answers_select_from_the_list i order dflt answers x :
+  In x (fst (select i order dflt answers)) -> In x order.
+Proof. exact (select_incl i order dflt answers x). Qed.
+Print Assumptions answers_select_from_the_list.
+
+Theorem answer_all_selects_the_rest order answers : select true order ans_all answers = (order, Done).
+Proof. exact (select_after_all order answers). Qed.
+Print Assumptions answer_all_selects_the_rest.
+
+(* frame over the extended state, whatever the outcome and whatever the answers: a declaration of another stack
+   or flavor (or any that is not doomed) is as before, so are the tags that name no doomed version, no path
+   appears, and a path in none of the asked products' directories stays *)
+Theorem frame_multi xall keep fuel ww wu c st k answers res st' :
+  wf_world ww -> default_undeclared ww c -> declared ww (k_name k) (k_version k) = true ->
+  remove_x xall keep fuel ww wu c st k answers = (res, st') ->
+  (forall s n' v' f', ~ doomed ww c (rdb st) (k_name k) (k_version k) (k_recursive k) s n' v' f' ->
+     a_decl (rdb st') s n' v' f' = a_decl (rdb st) s n' v' f') /\
+  (forall s n' t f', (forall v', a_tag (rdb st) s n' t f' = Some v' ->
+                                 ~ doomed ww c (rdb st) (k_name k) (k_version k) (k_recursive k) s n' v' f') ->
+     a_tag (rdb st') s n' t f' = a_tag (rdb st) s n' t f') /\
+  (forall x, In x (rfs st') -> In x (rfs st)) /\
+  (forall x, In x (rfs st) ->
+     (forall q dir, asked ww (k_name k) (k_version k) (k_recursive k) q -> product_dir c (rdb st) q = Some dir ->
+                    placeholder dir = false -> under dir x = false) ->
+     In x (rfs st')).
+Proof. exact (remove_x_frame xall keep fuel ww wu c st k answers res st'). Qed.
+Print Assumptions frame_multi.
+
+(* a declaration is doomed only under the running flavor and only in the first stack that declares the
+   version: every declaration for another flavor, and every declaration a nearer stack shadows, is in the frame *)
+Theorem other_flavor_and_shadowed_not_doomed ww c a n v recursive s n' v' f' :
+  doomed ww c a n v recursive s n' v' f' -> f' = rc_flavor c /\ home c a n' v' = Some s.
+Proof. intros [Hf [_ Hh]]. auto. Qed.
+Print Assumptions other_flavor_and_shadowed_not_doomed.
+
+(* the installation directory of a declaration that stays, with the fix C14-remove-keeps-shared-directory and
+   with NO hypothesis about nesting or sharing: a path is as before unless it lies in the own directory of an asked
+   product that does not hold the survivor's directory - a directory that was asked to be deleted and sits
+   strictly inside the survivor's.  (The survivor is one that Eups._findDeclarations sees: a stack of the path, the
+   running flavor or a fall-back flavor.) *)
+Theorem frame_directories_multi xall fuel ww wu c st k answers res st' s0 m u f0 rs :
+  wf_world ww -> default_undeclared ww c -> declared ww (k_name k) (k_version k) = true ->
+  remove_x xall true fuel ww wu c st k answers = (res, st') ->
+  a_decl (rdb st) s0 m u f0 = Some rs -> In s0 (apath (rdb st)) -> In f0 (fallbacks (rc_flavor c)) ->
+  placeholder (fst rs) = false ->
+  ~ doomed ww c (rdb st) (k_name k) (k_version k) (k_recursive k) s0 m u f0 ->
+  forall x,
+    (forall q dir, asked ww (k_name k) (k_version k) (k_recursive k) q -> product_dir c (rdb st) q = Some dir ->
+                   placeholder dir = false -> under dir x = true -> under dir (fst rs) = true) ->
+    (In x (rfs st') <-> In x (rfs st)).
+Proof. exact (remove_x_frame_dirs_kept xall fuel ww wu c st k answers res st' s0 m u f0 rs). Qed.
+Print Assumptions frame_directories_multi.
+
+(* when no asked product is installed strictly inside it, the survivor's whole directory is as before - be it shared
+   with a removed product, or inside a removed product's directory *)
+Theorem frame_directories_multi_whole xall fuel ww wu c st k answers res st' s0 m u f0 rs :
+  wf_world ww -> default_undeclared ww c -> declared ww (k_name k) (k_version k) = true ->
+  remove_x xall true fuel ww wu c st k answers = (res, st') ->
+  a_decl (rdb st) s0 m u f0 = Some rs -> In s0 (apath (rdb st)) -> In f0 (fallbacks (rc_flavor c)) ->
+  placeholder (fst rs) = false ->
+  ~ doomed ww c (rdb st) (k_name k) (k_version k) (k_recursive k) s0 m u f0 ->
+  (forall q dir, asked ww (k_name k) (k_version k) (k_recursive k) q -> product_dir c (rdb st) q = Some dir ->
+                 placeholder dir = false -> under (fst rs) dir = true -> under dir (fst rs) = true) ->
+  forall x, under (fst rs) x = true -> (In x (rfs st') <-> In x (rfs st)).
+Proof. exact (remove_x_survivor_dir_whole xall fuel ww wu c st k answers res st' s0 m u f0 rs). Qed.
+Print Assumptions frame_directories_multi_whole.
+
+(* the statement under pairwise non-nested directories holds for the tree before that fix too *)
+Theorem frame_directories_multi_nonnested xall keep fuel ww wu c st k answers res st' s0 m u f0 rs :
+  wf_world ww -> default_undeclared ww c -> declared ww (k_name k) (k_version k) = true -> wf_dirs (rdb st) ->
+  remove_x xall keep fuel ww wu c st k answers = (res, st') ->
+  a_decl (rdb st) s0 m u f0 = Some rs -> placeholder (fst rs) = false ->
+  ~ doomed ww c (rdb st) (k_name k) (k_version k) (k_recursive k) s0 m u f0 ->
+  forall x, under (fst rs) x = true -> (In x (rfs st') <-> In x (rfs st)).
+Proof. exact (remove_x_frame_dirs xall keep fuel ww wu c st k answers res st' s0 m u f0 rs). Qed.
+Print Assumptions frame_directories_multi_nonnested.
+
+Theorem refusal_changes_nothing_multi xall keep fuel ww wu c st k answers st' :
+  wf_world ww -> default_undeclared ww c -> declared ww (k_name k) (k_version k) = true ->
+  remove_x xall keep fuel ww wu c st k answers = (Err Refused, st') -> st' = st.
+Proof. exact (remove_x_refusal_keeps_state xall keep fuel ww wu c st k answers st'). Qed.
+Print Assumptions refusal_changes_nothing_multi.
+
+(* never something still needed, over the extended state (code with the fix): d would be deleted; the
+   declaration of un uv in stack s for flavor f - any stack of the path, the running flavor or a fall-back
+   flavor, possibly a second declaration of the product named on the command line itself - would remain, and its
+   table files reach d: the command is refused and nothing changes *)
+Theorem refuses_when_needed_multi keep fuel ww wu c st k answers idx d un uv s f :
+  wf_world ww -> default_undeclared ww c -> declared ww (k_name k) (k_version k) = true ->
+  coherent ww c (rdb st) ->
+  length ww + 2 <= fuel -> length wu < fuel ->
+  uses_index fuel wu = Ok idx -> rc_force c = false -> k_check k = true ->
+  asked ww (k_name k) (k_version k) (k_recursive k) d ->
+  In (un, uv) (map fst wu) -> reach_plus wu (pnode (un, uv)) d -> d <> pnode (un, uv) ->
+  In (s, f) (decl_places c (rdb st) un uv) ->
+  ~ doomed ww c (rdb st) (k_name k) (k_version k) (k_recursive k) s un uv f ->
+  remove_x true keep fuel ww wu c st k answers = (Err Refused, st).
+Proof. exact (remove_x_refuses_when_needed keep fuel ww wu c st k answers idx d un uv s f). Qed.
+Print Assumptions refuses_when_needed_multi.
+
+(* ------------------------------------------------------------------ witnesses over two stacks and two flavors *)
+
+Definition S1 : str := lit "/S1".
+Definition S2 : str := lit "/S2".
+Definition gen : str := lit "generic".
+Definition mdir (s : str) (n v : string) : str := s ++ lit "/" ++ lit n ++ lit "/" ++ lit v.
+Definition mdk (s f : str) (n v : string) : dkey * vrec :=
+  ((s, lit n, lit v, f), (mdir s n v, mdir s n v ++ lit "/ups/" ++ lit n ++ lit ".table")).
+Definition mtg (s f : str) (n t v : string) : dkey * str := ((s, lit n, lit t, f), lit v).
+Definition mpaths (s : str) (n v : string) : list str :=
+  [s ++ lit "/" ++ lit n; mdir s n v; mdir s n v ++ lit "/ups"; mdir s n v ++ lit "/ups/" ++ lit n ++ lit ".table"].
+
+(* stack S1 (private): t 1 -> d 1, and d 1.   stack S2 (shared): t 1 -> d 1 once more (shadowed by S1), x 1, and
+   for the fall-back flavor generic g 1 -> x 1.  d carries current in S1 and x carries current and stable in S2. *)
+Definition ww_ms : world :=
+  [ pr "t" "1" [ed "d" (Some "1") (Some "1") false]; pr "d" "1" []; pr "x" "1" [] ].
+Definition wu_ms : world :=
+  [ ((lit "t", lit "1"), [ed "d" (Some "1") (Some "1") false; imp; ed "d" (Some "1") (Some "1") false; imp]);
+    pr "d" "1" []; pr "x" "1" []; pr "g" "1" [ed "x" None (Some "1") false] ].
+(* what findProducts() of the pinned tree shows Eups.uses: t 1 once *)
+Definition wu_ms_pinned : world :=
+  [ pr "t" "1" [ed "d" (Some "1") (Some "1") false]; pr "d" "1" []; pr "x" "1" []; pr "g" "1" [ed "x" None (Some "1") false] ].
+Definition st_ms : rstate :=
+  mkR (mkAdb [S1; S2]
+             [mdk S1 linux "t" "1"; mdk S1 linux "d" "1"; mdk S2 linux "t" "1"; mdk S2 linux "x" "1"; mdk S2 gen "g" "1"]
+             [mtg S1 linux "t" "current" "1"; mtg S1 linux "d" "current" "1"; mtg S2 linux "t" "current" "1";
+              mtg S2 linux "x" "current" "1"; mtg S2 linux "x" "stable" "1"; mtg S2 gen "g" "current" "1"])
+      (mpaths S1 "t" "1" ++ mpaths S1 "d" "1" ++ mpaths S2 "t" "1" ++ mpaths S2 "x" "1" ++ mpaths S2 "g" "1").
+Definition call (n v : string) (recursive chk interactive : bool) : rcall := mkCall (lit n) (lit v) recursive chk interactive.
+
+Example hypotheses_inhabited_multi :
+  wf_world ww_ms /\ default_undeclared ww_ms (conf false) /\ coherent ww_ms (conf false) (rdb st_ms) /\
+  wf_dirs (rdb st_ms) /\ declared ww_ms (lit "t") (lit "1") = true /\ length ww_ms + 2 <= 6 /\ length wu_ms < 6 /\
+  (exists idx, uses_index 6 wu_ms = Ok idx) /\
+  asked ww_ms (lit "t") (lit "1") true (nd "d" "1") /\
+  In (lit "t", lit "1") (map fst wu_ms) /\ reach_plus wu_ms (pnode (lit "t", lit "1")) (nd "d" "1") /\
+  In (S2, linux) (decl_places (conf false) (rdb st_ms) (lit "t") (lit "1")) /\
+  ~ doomed ww_ms (conf false) (rdb st_ms) (lit "t") (lit "1") true S2 (lit "t") (lit "1") linux.
+Proof.
+  assert (Hwf : wf_world ww_ms) by (apply wf_world_by_computation; vm_compute; reflexivity).
+  assert (D : declared ww_ms (lit "t") (lit "1") = true) by (vm_compute; reflexivity).
+  split; [exact Hwf|].
+  split; [apply default_undeclared_by_computation; vm_compute; reflexivity|].
+  split; [apply coherent_by_computation; vm_compute; reflexivity|].
+  split; [apply wf_dirs_by_computation; vm_compute; reflexivity|].
+  split; [exact D|]. split; [vm_compute; repeat constructor|]. split; [vm_compute; repeat constructor|].
+  split; [eexists; vm_compute; reflexivity|].
+  split.
+  { apply (proj2 (asked_dpath _ _ _ _ _ Hwf D)). right. split; [reflexivity|].
+    apply dp_step with (q := nd "d" "1"); [vm_compute; auto|]. apply dp_refl. }
+  split; [vm_compute; auto|].
+  split.
+  { apply rp_one. exists [ed "d" (Some "1") (Some "1") false; imp; ed "d" (Some "1") (Some "1") false; imp], (ed "d" (Some "1") (Some "1") false).
+    vm_compute. auto. }
+  split; [vm_compute; auto|].
+  intros [_ [_ Hh]]. vm_compute in Hh. discriminate Hh.
+Qed.
+
+(* remove -R t 1 (private t 1 and d 1 would go; the shared t 1 stays and needs d 1): refused with the fix;
+   the pinned tree deletes d 1 and leaves the shared t 1 declared without it.  remove x 1: refused in both,
+   because g 1, declared for the fall-back flavor in the other stack, needs it. *)
+Example other_declaration_refuted_pinned :
+  remove_x true true 6 ww_ms wu_ms (conf false) st_ms (call "t" "1" true true false) [] = (Err Refused, st_ms)
+  /\ (let '(r, s) := remove_x false false 6 ww_ms wu_ms_pinned (conf false) st_ms (call "t" "1" true true false) [] in
+      (r, adecls (rdb s)))
+     = (Ok tt, [mdk S2 linux "t" "1"; mdk S2 linux "x" "1"; mdk S2 gen "g" "1"])
+  /\ remove_x true true 6 ww_ms wu_ms (conf false) st_ms (call "x" "1" false true false) [] = (Err Refused, st_ms)
+  /\ remove_x false false 6 ww_ms wu_ms_pinned (conf false) st_ms (call "x" "1" false true false) [] = (Err Refused, st_ms).
+Proof. split; [vm_compute; reflexivity|]. split; [vm_compute; reflexivity|]. split; vm_compute; reflexivity. Qed.
+
+(* with --force the private t 1 and d 1 go: the shared stack, the other flavor, their tags and trees are as before *)
+Example remove_multi_example :
+  (let '(r, s) := remove_x true true 6 ww_ms wu_ms (conf true) st_ms (call "t" "1" true true false) [] in
+   (r, adecls (rdb s), atags (rdb s), rfs s))
+  = (Ok tt, [mdk S2 linux "t" "1"; mdk S2 linux "x" "1"; mdk S2 gen "g" "1"],
+     [mtg S2 linux "t" "current" "1"; mtg S2 linux "x" "current" "1"; mtg S2 linux "x" "stable" "1"; mtg S2 gen "g" "current" "1"],
+     [lit "/S1/t"; lit "/S1/d"] ++ mpaths S2 "t" "1" ++ mpaths S2 "x" "1" ++ mpaths S2 "g" "1").
+Proof. vm_compute. reflexivity. Qed.
+
+(* the questions of remove -R -i t 1 (no in-use check): t 1 is asked about first, then d 1.
+   n, y: only d 1 goes.   q: nothing goes, status 0.   empty line (default y), then n: only t 1.
+   garbage is asked again.   the exclamation mark: both, nothing more is read.   no answer left: EOFError after t 1. *)
+Example interactive_example :
+  let run answers := let '(r, s) := remove_x true true 6 ww_ms wu_ms (conf false) st_ms (call "t" "1" true false true) answers in
+                     (r, map (fun e => snd (fst (fst (fst e)))) (filter (fun e => str_eqb (fst (fst (fst (fst e)))) S1) (adecls (rdb s)))) in
+  run [lit "n"; lit "y"] = (Ok tt, [lit "t"])
+  /\ run [lit "q"] = (Ok tt, [lit "t"; lit "d"])
+  /\ run [lit ""; lit "n"] = (Ok tt, [lit "d"])
+  /\ run [lit "what"; lit "y"; lit "maybe"; lit "n"] = (Ok tt, [lit "d"])
+  /\ run [lit "!"] = (Ok tt, [])
+  /\ run [lit "y"] = (Err Undefined, [lit "d"])
+  /\ select true [nd "t" "1"; nd "d" "1"] ans_y [lit "n"; lit "y"] = ([nd "d" "1"], Done).
+Proof. cbv zeta. repeat split; vm_compute; reflexivity. Qed.
+
+(* the front end: eups remove -R -N -i t 1 with the answer n, y; one argument only is the usage error *)
+Example front_end_example :
+  (match eups_remove true true 6 ww_ms wu_ms linux (lit "implicitProducts") st_ms (mkRO true true false (Some true))
+                     [lit "t"; lit "1"] [lit "n"; lit "y"] with
+   | Some (r, s) => Some (r, length (adecls (rdb s)))
+   | None => None
+   end) = Some (Ok tt, 4)
+  /\ eups_remove true true 6 ww_ms wu_ms linux (lit "implicitProducts") st_ms (mkRO true true false None) [lit "t"] [] = None.
+Proof. split; vm_compute; reflexivity. Qed.
+
+(* defect, fixed by C14-remove-keeps-shared-directory: b 1 (stack S1) and y 1 (stack S2) are installed in the same
+   directory /out/b.  The tree before the fix ([keep = false]): remove b 1 undeclares b 1 and deletes /out/b with
+   everything below, although y 1 stays declared with that installation directory - the clause every other
+   installation directory is untouched fails (the code knew about shared directories only when both products
+   went: removedDirs).  With the fix the directory is left alone; it goes when y 1 is removed as well. *)
+Definition st_shared : rstate :=
+  mkR (mkAdb [S1; S2]
+             [((S1, lit "b", lit "1", linux), (lit "/out/b", lit "/out/b/ups/b.table"));
+              ((S2, lit "y", lit "1", linux), (lit "/out/b", lit "/S2/_tables/y.table"))] [])
+      [lit "/out/b"; lit "/out/b/ups"; lit "/out/b/ups/b.table"; lit "/S2/_tables/y.table"].
+Definition w_shared : world := [ pr "b" "1" []; pr "y" "1" [] ].
+
+Example shared_directory_refuted_pinned :
+  (let '(r, s) := remove_x true false 5 w_shared w_shared (conf false) st_shared (call "b" "1" false true false) [] in
+   (r, adecls (rdb s), rfs s))
+  = (Ok tt, [((S2, lit "y", lit "1", linux), (lit "/out/b", lit "/S2/_tables/y.table"))], [lit "/S2/_tables/y.table"])
+  /\ (let '(r, s) := remove_x true true 5 w_shared w_shared (conf false) st_shared (call "b" "1" false true false) [] in
+      (r, adecls (rdb s), rfs s))
+     = (Ok tt, [((S2, lit "y", lit "1", linux), (lit "/out/b", lit "/S2/_tables/y.table"))], rfs st_shared)
+  /\ ~ wf_dirs (rdb st_shared).
+Proof.
+  split; [vm_compute; reflexivity|]. split; [vm_compute; reflexivity|]. intro H.
+  specialize (H S1 (lit "b") (lit "1") linux (lit "/out/b", lit "/out/b/ups/b.table")
+                S2 (lit "y") (lit "1") linux (lit "/out/b", lit "/S2/_tables/y.table")).
+  assert (X : under (lit "/out/b") (lit "/out/b") = false).
+  { apply H; try (vm_compute; reflexivity). intro E. inversion E. }
+  vm_compute in X. discriminate X.
+Qed.
+
+(* ... and when both products that live in the directory go (b 1, then y 1), it goes with the last of them *)
+Example shared_directory_goes_with_the_last :
+  (let '(r, s) := remove_x true true 5 w_shared w_shared (conf false)
+                    (snd (remove_x true true 5 w_shared w_shared (conf false) st_shared (call "b" "1" false true false) []))
+                    (call "y" "1" false true false) [] in
+   (r, adecls (rdb s), rfs s))
+  = (Ok tt, [], [lit "/S2/_tables/y.table"]).
+Proof. vm_compute. reflexivity. Qed.
